@@ -296,6 +296,8 @@ ApplyList(h, o) ==
          {Res(Ok(NewRef(h)), Append(h, Cell("GS", e)))}
     [] o.op = "FilterAll" ->   \* Filter with the constant-true predicate
          {Res(Ok(NewRef(h)), Append(h, Cell("L", e)))}
+    [] o.op = "FilterHead" ->  \* Filter with a predicate that accepts the first o.i calls and rejects the rest (take-while)
+         {Res(Ok(NewRef(h)), Append(h, Cell("L", SubSeq(e, 1, IF o.i < Len(e) THEN o.i ELSE Len(e)))))}
     [] o.op = "MapId" ->       \* Map with the identity function
          {Res(Ok(NewRef(h)), Append(h, Cell("L", e)))}
 
@@ -409,7 +411,7 @@ Apply(h, o) ==
     [] o.op \in {"NewListFrom", "NewObjectFrom"} ->
          LET s == CopyVal(h, Ref(o.r), FromF) IN {Res(Ok(s[2]), s[1])}
     [] o.op \in {"Add", "Insert", "Replace", "Delete", "Pop", "Clear", "Reverse", "Sort", "SortAny",
-                 "SubList", "Concat", "Slice", "FilterAll", "MapId"} -> ApplyList(h, o)
+                 "SubList", "Concat", "Slice", "FilterAll", "FilterHead", "MapId"} -> ApplyList(h, o)
     [] o.op \in {"Set", "Unset", "ClearO", "Keys", "Values", "Pluck", "Dict", "Merge", "MapIdO"} -> ApplyObject(h, o)
     [] o.op \in {"GoSet", "GoAppend", "GoDelete"} -> ApplyGo(h, o)
     [] o.op \in {"SetTF", "UnsetTF"} -> ApplyTF(h, o)
